@@ -67,6 +67,16 @@ def rand_pixels(rng, w, h, kind, ncol=16):
         return p
     if kind == "flatrows":
         return [[rng.randrange(ncol)] * w for _ in range(h)]
+    if kind == "carry":
+        # a busy row, then rows that repeat the busy row's last byte (its last two pixels) all the way across: the row
+        # a "same as the byte before" coding can express without any data of its own, right below a row that differs
+        p = []
+        while len(p) < h:
+            busy = [rng.randrange(ncol) for _ in range(w)]
+            p.append(busy)
+            for _ in range(rng.choice([1, 1, 2, 3])):
+                p.append([busy[w - 2 + x % 2] for x in range(w)])
+        return p[:h]
     if kind in ("bottomflat", "topflat"):
         # busy part and one big flat area (long runs at the very end / start of the compressed stream)
         cut = h * 3 // 4 if kind == "bottomflat" else h // 4
